@@ -464,13 +464,82 @@ pub fn avcc(p: &[u8], dev: &mut Vec<String>) -> Option<AvcC> {
         o += l;
     }
     if o != p.len() {
-        // high-profile extension is legal for profile_idc 100/110/122/144 (4 bytes + sps ext)
+        // high-profile extension is legal for profile_idc 100/110/122/144 (ISO/IEC 14496-15
+        // 5.3.3.1.2): 6 reserved bits + chroma_format (2), 5 reserved bits + bit_depth_luma_minus8
+        // (3), 5 reserved bits + bit_depth_chroma_minus8 (3), numOfSequenceParameterSetExt (8) and
+        // that many 16-bit-length-prefixed SPS extension units, ending exactly at the record end
         let ext_ok = matches!(c.profile, 100 | 110 | 122 | 144) && p.len() - o >= 4;
         if !ext_ok {
             dev.push("avcC: trailing bytes after the PPS list".into());
+        } else {
+            let t = &p[o..];
+            if t[0] & 0xfc != 0xfc || t[1] & 0xf8 != 0xf8 || t[2] & 0xf8 != 0xf8 {
+                dev.push("avcC: reserved bits of the high-profile trailer not all 1".into());
+            }
+            let (cf, bl, bc) = (t[0] & 3, t[1] & 7, t[2] & 7);
+            let mut q = o + 4;
+            let mut tiles = true;
+            for _ in 0..t[3] {
+                if q + 2 > p.len() || q + 2 + be16(&p[q..]) as usize > p.len() {
+                    tiles = false;
+                    break;
+                }
+                q += 2 + be16(&p[q..]) as usize;
+            }
+            if !tiles || q != p.len() {
+                dev.push("avcC: high-profile trailer / SPS extension list does not end at the record end".into());
+            }
+            // what the trailer says must be what the (first) SPS in the record says
+            if let Some((scf, sbl, sbc)) = c.sps.first().and_then(|s| sps_chroma_and_depth(s)) {
+                if (scf, sbl, sbc) != (cf as u64, bl as u64, bc as u64) {
+                    dev.push("avcC: high-profile trailer (chroma_format / bit depths) disagrees with the SPS in the record".into());
+                }
+            }
         }
     }
     Some(c)
+}
+
+/// chroma_format_idc, bit_depth_luma_minus8, bit_depth_chroma_minus8 of an H.264 SPS NAL unit of
+/// one of the profiles that code them (H.264 7.3.2.1.1), or None when the unit is another
+/// profile's / too short / not decodable that far.
+pub fn sps_chroma_and_depth(nal: &[u8]) -> Option<(u64, u64, u64)> {
+    if nal.len() < 5 || nal[0] & 0x1f != 7 {
+        return None;
+    }
+    // strip emulation-prevention bytes
+    let mut rbsp = Vec::with_capacity(nal.len());
+    let mut zeros = 0;
+    for &b in &nal[1..] {
+        if zeros >= 2 && b == 3 {
+            zeros = 0;
+            continue;
+        }
+        rbsp.push(b);
+        zeros = if b == 0 { zeros + 1 } else { 0 };
+    }
+    if !matches!(rbsp[0], 100 | 110 | 122 | 244 | 44 | 83 | 86 | 118 | 128 | 138 | 139 | 134 | 135) {
+        return None;
+    }
+    let mut r = crate::model::av1::BitRd::new(&rbsp[3..]);
+    let mut ue = |r: &mut crate::model::av1::BitRd| -> Option<u64> {
+        let mut lz = 0u32;
+        while !r.b()? {
+            lz += 1;
+            if lz > 31 {
+                return None;
+            }
+        }
+        Some((1u64 << lz) - 1 + r.f(lz)?)
+    };
+    let _id = ue(&mut r)?;
+    let cf = ue(&mut r)?;
+    if cf == 3 {
+        r.b()?;
+    }
+    let bl = ue(&mut r)?;
+    let bc = ue(&mut r)?;
+    Some((cf, bl, bc))
 }
 
 #[derive(Clone, Debug, Default, PartialEq)]
